@@ -98,6 +98,7 @@ def specCheck (prop : String) (op res : List String) : String :=
     match (" ".intercalate res).splitOn " ## " with
     | [a, b] => verdict (a == b) "observation depends on the segmentation of reads/writes"
     | _ => "fail unparsable result"
+  | "C19", ["e2e_getpost", a, b] => specGetPost a b res
   | prop, ["e2e", h] => specE2E prop h res
   | prop, ["e2e_fresh", h] => specE2E prop h res
   | _, _ => "nospec"
